@@ -837,6 +837,7 @@ func runC07(c *core.Ctx) {
 	jobs, deaths := pool.Stats()
 	c.Count("l2_jobs", jobs)
 	c.Count("l2_process_deaths", deaths)
+	c.Count("l2_priming_runs", pool.Primed())
 }
 
 func regDayString(d obs.RegDay) string {
